@@ -35,6 +35,11 @@ def check(prop, tier, seed):
     n = common.tier_n(tier)
     items = common.choose_items(prop, tier, seed, n, select=_select(prop), mode_fraction=MODE_FRACTION[prop],
                                 prior_fraction=0.08)
+    if prop == "C10":
+        # extended population sizes (odd, not multiples of group counts); audited separately (audit/ext_v2.json)
+        import random as _r
+        rr = _r.Random(f"c10ext/{tier}/{seed}")
+        items += [{"e": e} for e in rr.sample(range(universe.EXT_SIZE), min(universe.EXT_SIZE, n // 3))]
     pairs = common.run_campaign(rep, items)
 
     def nontrivial(obs):
@@ -58,7 +63,7 @@ def check(prop, tier, seed):
     rep.extra["elitist_generation_pairs"] = counters["sum_c17_pairs"]
     for item, obs in pairs[:400]:
         if nontrivial(obs) and len(rep.samples) < 4:
-            c = universe.case(item if isinstance(item, int) else item["i"])
+            c = universe.case_ext(item["e"]) if isinstance(item, dict) and "e" in item else universe.case(item if isinstance(item, int) else item["i"])
             rep.sample({"item": item, "optimizer": obs["opt"], "task_kind": obs["kind"], "minmax": obs["minmax"],
                         "mode": obs["mode"], "config": c["cfg"], "vars": c["spec"]["vars"], "stats": obs["stats"]})
     min_opts = 80 if prop != "C17" else 60
